@@ -3,40 +3,6 @@ From Fiano Require Import Base.Bytes Base.BytesLemmas Gen.Consts Model.Fmap.
 From Coq Require Import ZifyBool ZifyNat.
 Open Scope Z_scope.
 
-(* ---- generic field-access lemmas ---- *)
-
-Lemma sub_app_skip (a b : bytes) off len k :
-  zlen a = k -> k <= off -> sub off len (a ++ b) = sub (off - k) len b.
-Proof.
-  intros Hk Hle. unfold sub. f_equal.
-  pose proof (zlen_nonneg a).
-  replace off with ((off - k) + zlen a) at 1 by lia.
-  rewrite <- zskipn_zskipn by lia. rewrite zskipn_app_exact. reflexivity.
-Qed.
-
-Lemma sub_app_here (a b : bytes) len : zlen a = len -> sub 0 len (a ++ b) = a.
-Proof.
-  intros <-. unfold sub. change (zskipn 0 (a ++ b)) with (a ++ b). apply zfirstn_app_exact.
-Qed.
-
-Lemma sub_here_exact (a : bytes) len : zlen a = len -> sub 0 len a = a.
-Proof. intros <-. apply sub_all. Qed.
-
-Lemma rd_app_skip (a b : bytes) off w k :
-  zlen a = k -> k <= off -> rd off w (a ++ b) = rd (off - k) w b.
-Proof. intros; unfold rd; f_equal; apply sub_app_skip; auto. Qed.
-
-Lemma rd_app_here (a b : bytes) w : zlen a = Z.of_nat w -> rd 0 w (a ++ b) = le_dec a.
-Proof. intros; unfold rd; f_equal; apply sub_app_here; auto. Qed.
-
-Lemma rd_here_exact (a : bytes) w : zlen a = Z.of_nat w -> rd 0 w a = le_dec a.
-Proof. intros; unfold rd; f_equal; apply sub_here_exact; auto. Qed.
-
-Lemma le1 v : zlen (le_enc 1 v) = 1. Proof. exact (zlen_le_enc 1 v). Qed.
-Lemma le2 v : zlen (le_enc 2 v) = 2. Proof. exact (zlen_le_enc 2 v). Qed.
-Lemma le4 v : zlen (le_enc 4 v) = 4. Proof. exact (zlen_le_enc 4 v). Qed.
-Lemma le8 v : zlen (le_enc 8 v) = 8. Proof. exact (zlen_le_enc 8 v). Qed.
-
 (* ---- well-formedness unpacked ---- *)
 
 Lemma wf_header_spec h : wf_header h = true ->
@@ -167,8 +133,6 @@ Proof.
   unfold zskipn in *. replace (Z.to_nat (j + 1)) with (S (Z.to_nat j)) in H by lia. exact H.
 Qed.
 
-Lemma zskipn_cons_succ {A} (x : A) l j : 0 <= j -> zskipn (j + 1) (x :: l) = zskipn j l.
-Proof. intros. unfold zskipn. replace (Z.to_nat (j + 1)) with (S (Z.to_nat j)) by lia. reflexivity. Qed.
 
 (* exactly one valid offset k, with a complete area table *)
 Lemma scan_unique b pos k h ars :
@@ -395,10 +359,6 @@ Qed.
 
 (* ---- Read then Write is the identity on the image ---- *)
 
-Ltac glue b a l1 l2 :=
-  let H := fresh in
-  pose proof (window_glue b a l1 l2 ltac:(lia) ltac:(lia) ltac:(lia)) as H;
-  simpl Z.add in H; rewrite H; clear H.
 
 Lemma enc_dec_header b h : bytes_ok b = true -> dec_header b = Some h ->
   enc_header h = zfirstn hdr_len b /\ zlen b >= hdr_len.
